@@ -125,7 +125,9 @@ def gen_array(r: random.Random, big=False):
 
 
 def _gen_labels(r, n, kind=None):
-    kind = kind or r.choice(['range', 'int', 'str', 'float', 'mixed_str'])
+    kind = kind or r.choice(['range', 'int', 'str', 'float', 'mixed_str', 'dates'])
+    if kind == 'dates':
+        return list(pd.to_datetime(np.array(sorted(r.sample(range(0, 10**6), n)), dtype='datetime64[h]')))
     if kind == 'range':
         return list(range(n))
     if kind == 'int':
@@ -138,7 +140,7 @@ def _gen_labels(r, n, kind=None):
 
 
 def _gen_column(r, n):
-    k = r.choice(['i8', 'f8', 'bool', 'str', 'i4', 'f4', 'u1', 'dt', 'cat', 'obj'])
+    k = r.choice(['i8', 'f8', 'bool', 'str', 'i4', 'f4', 'u1', 'dt', 'cat', 'obj', 'Int64', 'string', 'td', 'dttz', 'c16'])
     if k == 'i8':
         return np.array([_gen_int(r) for _ in range(n)], dtype='int64')
     if k == 'f8':
@@ -157,6 +159,16 @@ def _gen_column(r, n):
         return np.array([r.randint(0, 2 * 10**9) for _ in range(n)], dtype='datetime64[s]').astype('datetime64[ns]')
     if k == 'cat':
         return pd.Categorical([r.choice(['x', 'y', 'z']) for _ in range(n)], categories=['z', 'y', 'x', 'w'])
+    if k == 'Int64':
+        return pd.array([r.choice([None, 0, -1, 2**62]) if r.random() < 0.4 else r.randint(-99, 99) for _ in range(n)], dtype='Int64')
+    if k == 'string':
+        return pd.array([r.choice([None, '', 'x']) if r.random() < 0.4 else _gen_str(r, 6) for _ in range(n)], dtype='string')
+    if k == 'td':
+        return np.array([r.randint(-10**9, 10**9) for _ in range(n)], dtype='timedelta64[ms]').astype('timedelta64[ns]')
+    if k == 'dttz':
+        return pd.DatetimeIndex(np.array([r.randint(0, 2 * 10**9) for _ in range(n)], dtype='datetime64[s]').astype('datetime64[ns]'), tz='UTC').tz_convert('Europe/Prague')
+    if k == 'c16':
+        return np.array([complex(r.uniform(-2, 2), r.uniform(-2, 2)) for _ in range(n)], dtype='complex128')
     return np.array([r.choice([None, 1, 'a', 2.5, True]) for _ in range(n)], dtype=object)
 
 
@@ -307,6 +319,8 @@ def _canon_col(s: pd.Series):
     dt = s.dtype
     if isinstance(dt, pd.CategoricalDtype):
         return {'$cat': [list(map(str, dt.categories)), bool(dt.ordered), s.cat.codes.tolist()]}
+    if str(dt) in ('Int64', 'string') or 'datetime64[ns, ' in str(dt):
+        return {'$ext': [str(dt), [None if pd.isna(x) else repr(x) for x in s.tolist()]]}
     arr = s.to_numpy()
     if arr.dtype == object:
         return {'$ocol': [canon_json(x) if not isinstance(x, (np.generic,)) else {'$np': [x.dtype.str, repr(x.item())]} for x in arr.tolist()]}
